@@ -26,7 +26,10 @@ const CL_TRANSLATE: &str = "translate";
 /// rows/columns removed or inserted on ANOTHER sheet while the formula sits on the sheet that its own qualified
 /// references name (PLAIN): nothing in it concerns the edited sheet
 const CL_ID_OTHER_OPS: &str = "identity-edits-on-other-sheet";
-const CLAUSES: [&str; 5] = [CL_ID_COORD, CL_ID_FAR, CL_ID_OTHER, CL_TRANSLATE, CL_ID_OTHER_OPS];
+/// an insert on the formula's own sheet along the axis that none of its references has: rows inserted while every
+/// reference is a whole-column range, columns inserted while every reference is a whole-row range
+const CL_ID_ORTHO: &str = "identity-insert-on-the-other-axis";
+const CLAUSES: [&str; 6] = [CL_ID_COORD, CL_ID_FAR, CL_ID_OTHER, CL_TRANSLATE, CL_ID_OTHER_OPS, CL_ID_ORTHO];
 
 fn guarded<T, F: FnOnce() -> T>(f: F) -> Result<T, String> {
     std::panic::catch_unwind(std::panic::AssertUnwindSafe(f)).map_err(|e| panic_msg(&e))
@@ -83,6 +86,50 @@ fn lib_other_sheet_ops(text: &str) -> Result<String, String> {
         book.insert_new_column_by_index("Other", &1, &1);
         book.insert_new_row("Other", &2, &3);
         find_formula(book.get_sheet_by_name(PLAIN).unwrap()).unwrap_or_else(|| "<formula cell vanished>".to_string())
+    })
+}
+
+/// Some(true): every reference of the formula is a whole-column range (at least one); Some(false): every one is a
+/// whole-row range; None: anything else
+fn single_axis(f: &F) -> Option<bool> {
+    fn walk(f: &F, cols: &mut usize, rows: &mut usize, other: &mut usize) {
+        if let F::L(l) = f {
+            match l {
+                Leaf::Ref(r) => match r.k {
+                    RK::Cols { .. } => *cols += 1,
+                    RK::Rows { .. } => *rows += 1,
+                    _ => *other += 1,
+                },
+                Leaf::RefErr(..) => *other += 1,
+                _ => {}
+            }
+        }
+        for c in children(f) {
+            walk(c, cols, rows, other);
+        }
+    }
+    let (mut c, mut r, mut o) = (0, 0, 0);
+    walk(f, &mut c, &mut r, &mut o);
+    match (c, r, o) {
+        (n, 0, 0) if n > 0 => Some(true),
+        (0, n, 0) if n > 0 => Some(false),
+        _ => None,
+    }
+}
+fn lib_insert_ortho(text: &str, rows: bool) -> Result<String, String> {
+    let text = text.to_string();
+    guarded(move || {
+        let mut book = umya_spreadsheet::new_file();
+        let _ = book.new_sheet(PLAIN);
+        let sheet = book.get_sheet_by_name_mut("Sheet1").unwrap();
+        // the formula sits far away from the inserted band so that only its references are concerned
+        sheet.get_cell_mut((40u32, 60u32)).set_formula(text);
+        if rows {
+            sheet.insert_new_row(&2, &3);
+        } else {
+            sheet.insert_new_column_by_index(&2, &3);
+        }
+        find_formula(sheet).unwrap_or_else(|| "<formula cell vanished>".to_string())
     })
 }
 
@@ -156,6 +203,7 @@ fn check_one(f: &F, clause: &'static str, mv: (i64, i64), sink: &mut Sink, tally
             CL_ID_FAR => lib_insert_far(text),
             CL_ID_OTHER => lib_insert_other(text),
             CL_ID_OTHER_OPS => lib_other_sheet_ops(text),
+            CL_ID_ORTHO => lib_insert_ortho(text, single_axis(f) == Some(true)),
             _ => lib_set_coordinate(text, mv.0, mv.1),
         }
     };
@@ -207,6 +255,9 @@ fn check_formula(f: &F, only: Option<&'static str>, sink: &mut Sink) {
     }
     if want(CL_ID_OTHER_OPS) {
         check_one(f, CL_ID_OTHER_OPS, (0, 0), sink, &mut tally, false);
+    }
+    if want(CL_ID_ORTHO) && single_axis(f).is_some() {
+        check_one(f, CL_ID_ORTHO, (0, 0), sink, &mut tally, false);
     }
     // An external reference ([1]Sheet1!B2) is a relative reference too: translating it is legitimate, but the
     // reference model keeps bracketed leaves opaque, so the translate clause is not evaluated for them
